@@ -51,12 +51,19 @@ CONFIRM = {}
 NATIVE = dict(
     rumqttc=dict(modules=[('src/state.rs', 'state_v4.rs', 'verif_native'),
                           ('src/mqttbytes/topic.rs', 'topic_spec.rs', 'verif_native'),
-                          ('src/v5/mqttbytes/mod.rs', 'topic_spec.rs', 'verif_native')]),
+                          ('src/v5/mqttbytes/mod.rs', 'topic_spec.rs', 'verif_native'),
+                          ('src/mqttbytes/v4/mod.rs', 'decoder_spec.rs', 'verif_native_dec', dict(COPY='rumqttc::mqttbytes::v4::Packet::read', DECODE='Packet::read(stream, max)')),
+                          ('src/v5/mqttbytes/v5/mod.rs', 'decoder_spec.rs', 'verif_native_dec', dict(COPY='rumqttc::v5::mqttbytes::v5::Packet::read', DECODE='Packet::read(stream, Some(max as u32))'))]),
     rumqttd=dict(modules=[('src/protocol/mod.rs', 'topic_spec.rs', 'verif_native'),
-                          ('src/router/routing.rs', 'router_model.rs', 'verif_native')]),
+                          ('src/router/routing.rs', 'router_model.rs', 'verif_native'),
+                          ('src/protocol/mod.rs', 'codec_spec.rs', 'verif_native_codec'),
+                          ('src/protocol/v4/mod.rs', 'decoder_spec.rs', 'verif_native_dec', dict(COPY='rumqttd::protocol::v4::V4::read_mut', DECODE='V4.read_mut(stream, max)')),
+                          ('src/protocol/v5/mod.rs', 'decoder_spec.rs', 'verif_native_dec', dict(COPY='rumqttd::protocol::v5::V5::read_mut', DECODE='V5.read_mut(stream, max)'))]),
 )
+# extra dev-dependencies written into the scratch copy's Cargo.toml (workspace members only: resolvable offline)
+NATIVE_DEV_DEPS = dict(rumqttd=['rumqttc = { path = "../rumqttc" }'])
 DIGEST_COPIES = {'topic-copies-agree': (3, ['C12'])}
-NATIVE_ENV = dict(quick=dict(VERIF_NMAX=3, VERIF_DEPTH=9, VERIF_TOPIC_LEN=4, VERIF_FILTER_LEN=4, VERIF_EVENT_DEPTH=3, VERIF_REQ_DEPTH=3), thorough=dict(VERIF_NMAX=4, VERIF_DEPTH=12, VERIF_TOPIC_LEN=5, VERIF_FILTER_LEN=4, VERIF_EVENT_DEPTH=4, VERIF_REQ_DEPTH=4))
+NATIVE_ENV = dict(quick=dict(VERIF_NMAX=3, VERIF_DEPTH=9, VERIF_TOPIC_LEN=4, VERIF_FILTER_LEN=4, VERIF_EVENT_DEPTH=3, VERIF_REQ_DEPTH=3, VERIF_DEC_ALL=2, VERIF_DEC_LEN=6, VERIF_CODEC_BIG=0), thorough=dict(VERIF_NMAX=4, VERIF_DEPTH=12, VERIF_TOPIC_LEN=5, VERIF_FILTER_LEN=4, VERIF_EVENT_DEPTH=4, VERIF_REQ_DEPTH=4, VERIF_DEC_ALL=3, VERIF_DEC_LEN=7, VERIF_CODEC_BIG=1))
 
 _CLIENT_STATE_TRUSTED = [
     'Kani 0.68 / CBMC 6.11 (bit-precise; machine arithmetic exact, overflow checks on)',
@@ -66,6 +73,27 @@ _CLIENT_STATE_TRUSTED = [
 ]
 
 PROPS = dict(
+    C04=dict(
+        verus=[], kani=['rumqttc', 'rumqttd'], native=['rumqttd'],
+        scope='remaining-length codec (write_remaining_length / length / len_len) PROVED complete by Kani for every len: usize in all four copies; every packet type of the broker codecs (v4, v5) round-tripped, and client<->broker interoperation in both directions (3.1.1: all packet types, byte-identical encodings; MQTT 5: PUBLISH with every subset of properties), over a generated finite value set (bounded stand-in)',
+        residual='packet values outside the generated set (longer strings / payload bytes other than the fill byte); MQTT 5 non-PUBLISH packets are round-tripped per implementation but not compared across implementations',
+        trusted_base=['Kani/CBMC for the varint units; rustc as compiled for the enumeration'],
+        assumptions=['packet-level part is a BOUNDED stand-in (CBMC on BytesMut/String/Vec-based packet codecs is out of reach in reasonable time)'],
+    ),
+    C20=dict(
+        verus=[], kani=[], native=['rumqttd'],
+        scope='V4::write / V5::write on every notification shape the router can emit (From<Notification>/From<Ack> image): no error, no panic; PUBLISH towards 3.1.1 keeps topic/payload/qos/id and drops properties (decoded by the client library), towards MQTT 5 keeps properties; client<->broker interoperation',
+        residual='that forward_device_data passes stored properties through unchanged and RemoteLink uses the link protocol (Router-coupled / async)',
+        trusted_base=['rustc as compiled'],
+        assumptions=['BOUNDED stand-in over a generated finite value set'],
+    ),
+    C05=dict(
+        verus=[], kani=['rumqttc', 'rumqttd'], native=['rumqttc', 'rumqttd'],
+        scope='the four decoders (client v4/v5 Packet::read, broker V4/V5 read_mut): header logic (length, parse_fixed_header, check incl. max size) PROVED complete by Kani for all inputs in each copy; whole decoders checked on an exhaustive finite space of byte strings (bounded stand-in)',
+        residual='Network::read/readv loops and Framed (async); frames longer than the bound (their header logic is covered by the complete Kani harnesses)',
+        trusted_base=['Kani/CBMC for the header units; rustc as compiled for the enumeration'],
+        assumptions=['whole-decoder part is a BOUNDED stand-in (CBMC on BytesMut-based packet parsers is out of reach in reasonable time): all byte strings <= 2 bytes (3 thorough) plus structured strings up to 6 (7) bytes'],
+    ),
     C03=dict(
         verus=['tracker'], kani=[], native=['rumqttd'],
         scope='Router::events / handle_device_payload / handle_disconnection / consume driven natively on the real Router over every short history of router-level actions (bounded stand-in); matches() on arbitrary Unicode (C12 unit); Tracker::try_ready debug_assert guards (Verus)',
